@@ -14,9 +14,9 @@ STUBS = ["VirtualLoop", "struct/bytes/enum lowering (the TTL bytes of each Subsc
 ASSUMPTIONS = [
     "one received message with 1..2 (thorough 3) Subscribe entries; ids from {declared value, other value, wildcard constant}; TTL symbolic 0..0xFFFFFF; listener decision symbolic; channel symbolic",
     "server configurations: one running instance / wildcard instance / two instances / stopped instance / never started announcer / no instance; at most one instance matches an entry",
-    "StopSubscribe for an eventgroup nobody declares is not constrained by the statement",
+    "StopSubscribe for an eventgroup nobody declares is not constrained by the statement", "variant: the matching instance is withdrawn 0..6 ms after the message (the answer already decided must still leave exactly once)",
 ]
-REACH = {"H11": ["h11.ack", "h11.nack", "h11.stopsubscribe", "h11.multicast"]}
+REACH = {"H11": ["h11.ack", "h11.nack", "h11.stopsubscribe", "h11.multicast", "h11.stopped-meanwhile"]}
 W_I, W_M = 0xFFFF, 0xFF
 CONFIGS = {
     "one": [dict(sid=0x2000, iid=1, maj=1, egs=(5,), state="running")],
@@ -51,6 +51,9 @@ def cases(tier, seed):
         for prior in (1,):
             for e in (_ent(), _ent(cnt=1), _ent(eg=6)):
                 out.append({"h": "H11", "cfg": cfg, "ents": [e], "prior": prior, "collect": 0})
+    for cfg in ("one", "two"):
+        for e in (_ent(), _ent(eg=6), _ent(cnt=1)):
+            out.append({"h": "H11", "cfg": cfg, "ents": [e], "prior": 0, "collect": 5, "stop_after": True})
     for cfg in ("one", "two", "three"):
         for a, b in itertools.product(REPR, repeat=2):
             out.append({"h": "H11", "cfg": cfg, "ents": [a, b], "prior": 0, "collect": 5 if cfg == "two" else 0, "_w": 2})
@@ -131,10 +134,16 @@ def h11(E, M, case):
     multicast = E.flag("multicast")
     data = _message(E, ents, ttls, session)
     loop.deliver(20, lambda: prot.datagram_received(data, P, multicast), may_defer=False)
+    if case.get("stop_after"):
+        # the service is withdrawn while the answer may still sit in the send collector
+        ts = 20 + E.int("t_stop", 0, 6)
+        loop.deliver(ts, lambda: ann.stop_announce_service(insts[0]), name="stop")
     loop.settle(40)
     loop_clean(E, loop)
     acks = [x for x in sd_entries_sent(tr.sent[n0:]) if x["e"]["type"] == wire.T_SUBSCRIBE_ACK]
     other = [x for x in sd_entries_sent(tr.sent[n0:]) if x["e"]["type"] != wire.T_SUBSCRIBE_ACK and not (x["e"]["type"] == wire.T_OFFER and x["to"] == MC)]
+    if case.get("stop_after"):
+        E.reach("h11.stopped-meanwhile")
     E.observe([[x["e"]["service"], x["e"]["instance"], x["e"]["eventgroup"], x["e"]["counter"], x["e"]["ttl"]] for x in acks])
     E.require(not other, "a Subscribe is answered with SubscribeAck entries only")
     if multicast:
